@@ -40,6 +40,10 @@ def run_all(chk, fsets, tier):
         import rules_bits
         chk.rule("S.clean", floor=8 if i == 0 else 0, doc="bit-range domain: set_bit_pos leaves the buffer clean (cleared, then only the reloaded partial word inside the valid window)")
         rules_bits.run_reader_cleanliness(chk, F, fs, "S.clean", groups=("seek",), keys=("set_bit_pos",))
+        import rules_seq
+        chk.rule("S.content", floor=8 if i == 0 else 0,
+                 doc="bit-sequence domain: set_bit_pos(p) positions the backend at word p / W; for p % W = r > 0 it fetches exactly one word and the buffer holds exactly that word's last W - r stream bits in its valid window (zeros elsewhere); for r = 0 nothing is fetched and the buffer is empty - so every later read behaves as on a fresh reader that consumed p bits (C02.R7 from that state)")
+        rules_seq.run_seek_content(chk, F, fs, "S.content")
     # backends
     import rules_c13, rules_c11
     for mod, rules, name in ((rules_c13, ("K.word_pos", "K.set_word_pos", "K.read_word"), "memory backends"), (rules_c11, ("A4.positions",), "byte adapter")):
